@@ -245,7 +245,7 @@ class PlanarCurve(BaseCurve):
             return tuple()
         if self.degree == 1 and other.degree == 1:
             params = Intersection.lines(self, other)
-            return (params,) if len(params) else tuple()
+            return (params,) if len(params) else None
         usample = list(Math.closed_linspace(self.npts + 3))
         vsample = list(Math.closed_linspace(other.npts + 3))
         pairs = []
@@ -263,7 +263,8 @@ class PlanarCurve(BaseCurve):
             # Filter values by distance abs(ui-uj, vi-vj)
             tol_du = 1e-6
             pairs = Intersection.filter_parameters(pairs, tol_du)
-        return tuple(pairs)
+        # An empty tuple means equal curves
+        return tuple(pairs) if len(pairs) else None
 
     def __str__(self) -> str:
         msg = f"Planar curve of degree {self.degree} and "
